@@ -19,7 +19,7 @@ pub fn run_c16(cx: &Ctx) -> i32 {
     let texts = space::texts(&alphabet, max_len);
     let tallies = par::run_workers(32, |_w, claimer| {
         engine::quiet_panics();
-        engine::set_sweep_horizons(300_000, 20_000);
+        engine::set_sweep_horizons(40_000, 5_000);
         let mut t = Tally::new();
         space.for_each(claimer, &mut |node, tag| {
             let facts = ast::facts(node);
@@ -74,9 +74,13 @@ pub fn run_c16(cx: &Ctx) -> i32 {
                 if re.captures_len() != ng + 1 {
                     viol(&mut t, "", 0, format!("captures_len = {}, the pattern has {} capturing groups", re.captures_len(), ng));
                 }
-                let names: Vec<Option<String>> = re.capture_names().map(|n| n.map(|s| s.to_string())).collect();
-                if names != exp_names {
-                    viol(&mut t, "", 0, format!("capture_names = {:?}, expected {:?}", names, exp_names));
+                match catch_unwind(AssertUnwindSafe(|| re.capture_names().map(|n| n.map(|s| s.to_string())).collect::<Vec<Option<String>>>())) {
+                    Ok(names) => {
+                        if names != exp_names {
+                            viol(&mut t, "", 0, format!("capture_names = {:?}, expected {:?}", names, exp_names));
+                        }
+                    }
+                    Err(p) => viol(&mut t, "", 0, format!("capture_names panics: {}", engine::panic_msg(p))),
                 }
                 for text in &texts {
                     for pos in space::offsets(text) {
@@ -198,7 +202,7 @@ pub fn run_c17(cx: &Ctx) -> i32 {
     let total = strings.len();
     let tallies = par::run_workers(64, |_w, claimer| {
         engine::quiet_panics();
-        engine::set_sweep_horizons(300_000, 20_000);
+        engine::set_sweep_horizons(40_000, 5_000);
         let mut t = Tally::new();
         for (idx, s) in strings.iter().enumerate() {
             if !claimer.is_mine(idx) {
